@@ -274,3 +274,12 @@ func (tree *HTree) getNode''')]),
 	dst, err = CDecompress(src, sizeD)''', '''	sizeD := SizeDecompressed(src)
 	dst, err = CDecompress(src, sizeD)''')]),
 ]
+SPECS += [
+ dict(name='C05.R2-cancel-truncates-unscanned', rule='C05.R2', why='revert of the repair: cancel at the head of the first iteration truncates the unscanned in-place destination',
+      edits=[('store/gc.go', '''			if dstchunk.rewriting && gc.Src == gc.Dst {
+				// the file to be rewritten in place has not been scanned yet:
+				// keep it whole instead of truncating it at the (zero) write head
+				dstchunk.writingHead = dstchunk.size
+			}
+''', '')]),
+]
